@@ -4,46 +4,58 @@ From Util Require Import Common.Base Common.ListLemmas RefCount.Model RefCount.S
   RefCount.ProofsC09 RefCount.ProofsC10 RefCount.ProofsC10a RefCount.ProofsC10b RefCount.ProofsCodec RefCount.ProofsMon RefCount.ProofsMon2 RefCount.ProofsMon3
   RefCount.ProofsMon4 RefCount.ProofsMon5 RefCount.ProofsMon6 RefCount.ProofsMon7 RefCount.ProofsMonG RefCount.ProofsMon8 RefCount.ProofsMon9 RefCount.ProofsMon10
   RefCount.ProofsMon11 RefCount.ProofsMon12 RefCount.ProofsMon13 RefCount.ProofsMon14 RefCount.ProofsMon15 RefCount.ProofsMon16 RefCount.ProofsMonThm
-  RefCount.ProofsMon17 RefCount.ProofsMon18 RefCount.ProofsMon19 RefCount.ProofsMon20 RefCount.ProofsMon21 RefCount.ProofsMon22 RefCount.ProofsMon23.
+  RefCount.ProofsMon17 RefCount.ProofsMonE RefCount.ProofsMon18 RefCount.ProofsMon19 RefCount.ProofsMon20 RefCount.ProofsMon21 RefCount.ProofsMon22 RefCount.ProofsMon23.
 Open Scope nat_scope.
 
 (* the relation between the monitors' books and the model state, every configuration *)
-Definition R2 (m : mst) (h : hst) : Prop := R m h /\ m_cur m = cur_of (hs h) /\ Racc2 m (hs h).
+Definition R2 (m : mst) (h : hst) : Prop := R m h /\ m_cur m = cur_of (hs h) /\ Rempty m (hs h) /\ Racc2 m (hs h).
 
 Lemma mon_step2 m h e h' o :
   HR h -> HRc h -> R2 m h -> hstep h e = Some (h', o) ->
   exists m', mon (Some m) e o = (Some m', []) /\ R2 m' h' /\ HR h' /\ HRc h'.
 Proof.
-  intros HRh HCh [[HP HN] [Hcur HA]] H. destruct (hstep_dec h e h' o H) as [e0 [rets [Hd Hfin]]].
+  intros HRh HCh [[HP HN] [Hcur [Hem HA]]] H. destruct (hstep_dec h e h' o H) as [e0 [rets [Hd Hfin]]].
   assert (Eh : h' = fst (fin_of h (step repaired (hs h) e0) rets)) by (now rewrite <- Hfin).
   assert (Eo : o = obs_of rets (settle (step repaired (hs h) e0)) (hrel h)) by (unfold fin_of in Hfin; now inversion Hfin).
   assert (Hr : length rets = nrets e) by (destruct Hd; reflexivity).
   set (p := pobs_of rets (settle (step repaired (hs h) e0)) (hrel h)).
   assert (Em : mon (Some m) e o = (Some (u_mst m e p), [])).
   { unfold mon. rewrite Eo, (parse_obs e rets _ _ Hr). fold p. rewrite mon1_eq. f_equal.
-    unfold p. rewrite (facc_nil m h e e0 rets HRh HCh HP Hd Hcur HA), app_nil_r. rewrite (rp_const m h HP).
-    destruct (hconst h) eqn:Hc; [reflexivity|]. destruct (HN eq_refl) as [Hcalled Hcur0 Hout Hem Hinv Hacc].
+    unfold p. rewrite (facc_nil m h e e0 rets HRh HCh HP Hd Hcur Hem HA), app_nil_r. rewrite (rp_const m h HP).
+    destruct (hconst h) eqn:Hc; [reflexivity|]. destruct (HN eq_refl) as [Hcalled Hcur0 Hout Hem0 Hinv].
     unfold u_all.
     rewrite (clause_8_1 m h e e0 rets HRh Hd Hc Hcalled), (clause_8_2 h e e0 rets HRh Hd Hc), (clause_8_3 m h e e0 rets HRh HP Hd Hc),
-      (clause_8_4 m h e e0 rets HRh HP Hd Hc Hout Hcur0), (clause_9_3 m h e e0 rets HRh HP Hd Hc Hcur0 Hem),
+      (clause_8_4 m h e e0 rets HRh HP Hd Hc Hout Hcur0 Hem0), (clause_9_3 m h e e0 rets HRh HP Hd Hc Hcur0 Hem0),
       (clause_9_1 h e e0 rets HRh Hd), (clause_9_2 h e e0 rets HRh Hd), (clause_9_4 m h e e0 rets HRh HP Hd Hc Hcur0),
       (clause_9_5 m h e e0 rets HRh HP Hd Hc), (clause_10_1 m h e e0 rets HRh HP Hd Hc),
-      (clause_10_2 h e e0 rets HRh Hd), (clause_10_3 m h e e0 rets HRh HP Hd Hc Hcur0 Hinv).
+      (clause_10_2 h e e0 rets HRh Hd), (clause_10_3 m h e e0 rets HRh HP Hd Hc Hcur0 Hem0 Hinv).
     reflexivity. }
   exists (u_mst m e p). split; [exact Em|].
   destruct (mon_step m h e h' o HRh (conj HP HN) H) as [m' [f [Em' [_ [HRm' [HRh' _]]]]]].
   assert (Em2 : m' = u_mst m e p) by congruence. subst m'.
   split; [|split; [exact HRh'|]].
   - split; [exact HRm'|]. rewrite Eh. unfold fin_of. cbn [fst hs]. split.
-    + cbn [m_cur u_mst]. exact (upd_cur_c m h e e0 rets HCh HP Hd Hcur).
-    + exact (upd_acc2 m h e e0 rets HRh HCh HP Hd Hcur HA).
+    + cbn [m_cur u_mst]. exact (upd_cur_c m h e e0 rets HCh HP Hd Hcur Hem).
+    + split; [exact (upd_empty m h e e0 rets HCh Hd Hem) | exact (upd_acc2 m h e e0 rets HRh HCh HP Hd Hcur Hem HA)].
   - rewrite Eh. exact (HRc_step h e e0 rets HCh Hd).
+Qed.
+
+Lemma Rempty_init m s : m_empty m = [] -> m_emptyok m = [] -> gs s = [] -> resolved s = false -> Rempty m s.
+Proof.
+  intros E4 E4' F3 F2. constructor; constructor.
+  - intros g Hg. rewrite E4 in Hg. discriminate.
+  - intros i v hr e [x [Hx _]]. rewrite F3 in Hx. destruct i; discriminate.
+  - intros Er. congruence.
+  - intros g Hg. rewrite E4' in Hg. discriminate.
+  - intros i v hr e [x [Hx _]]. rewrite F3 in Hx. destruct i; discriminate.
+  - intros Er. congruence.
 Qed.
 
 Lemma R2_init cfg h m : hinit cfg = Some h -> minit cfg = Some m -> R2 m h.
 Proof.
   intros Hh Hm. split; [exact (R_init cfg h m Hh Hm)|]. unfold hinit, minit in *.
   destruct cfg as [|k [|c [|? ?]]]; try discriminate; inversion Hh; inversion Hm; subst h m; cbn [hs m_cur]; (split; [reflexivity|]);
+    (split; [apply Rempty_init; reflexivity|]);
     (constructor; cbn [m_acb m_acanc m_ainv m_adec conss init length];
      [intros [|i]; reflexivity | intros [|i] Hk; discriminate Hk | intros [|i] Hk; discriminate Hk | intros i Hi; lia | intros [|i] _; reflexivity | intros i Hi; lia]).
 Qed.
@@ -75,5 +87,18 @@ Theorem model_run_check_clean cfg evs :
   length (run_obs step_opt (hinit cfg) evs) = length evs ->
   run_check_refcount cfg evs (run_obs step_opt (hinit cfg) evs) = [].
 Proof. intros Hl. unfold run_check_refcount, run_check. rewrite (replay_own evs _ 0 Hl), model_satisfies_monitors. reflexivity. Qed.
+
+(* any restriction of the monitors to a set of clauses reports nothing either *)
+Lemma monitor_only_nil keep evs : forall obss i m,
+  monitor mon i m [] evs obss = [] -> monitor (mon_only keep) i m [] evs obss = [].
+Proof.
+  induction evs as [|e evs IH]; intros obss i m H; [reflexivity|]. destruct obss as [|o obss]; [reflexivity|].
+  cbn [monitor] in *. unfold mon_only. destruct (mon m e o) as [m' f]. cbv beta iota zeta in H |- *.
+  destruct f as [|a f]; [|cbn in H; discriminate H]. cbn [filter map app] in *. now apply IH.
+Qed.
+
+Theorem model_satisfies_monitors_clauses_acc cfg evs :
+  monitor (mon_only proved_acc) 0 (minit cfg) [] evs (run_obs step_opt (hinit cfg) evs) = [].
+Proof. apply monitor_only_nil, model_satisfies_monitors. Qed.
 Print Assumptions model_satisfies_monitors.
 Print Assumptions model_run_check_clean.
